@@ -178,6 +178,22 @@ class WeierG(G):
     def eq(self, P, Q): return self.C.eq(P, Q)
     def enc(self, P): return self.C.encode_uncompressed(P).hex()
 
+    def special_points(self):
+        if getattr(self, "_sp", None) is None:
+            B = self.base
+            out = [self.neutral, B, self.neg(B), self.dbl(B)]
+            # points with a zero coordinate (x = 0 exists on P-256), and the points whose repeated doubling lands on them
+            T0 = self.C.lift_x(0, 0)
+            if T0 is not None:
+                for T in (T0, self.neg(T0)):
+                    out.append(T)
+                    for k in range(1, 8):
+                        out.append(self.mul(pow(2, -k, self.n), T))
+                    out.append(self.add(T, B))
+                    out.append(self.mul(pow(3, -1, self.n), T))
+            self._sp = out
+        return self._sp
+
     def desc(self, P, rng=None):
         if P is None:
             return "e00"
@@ -207,6 +223,21 @@ class DoG(G):
     def eq(self, P, Q): return self.D.eq(P, Q)
     def enc(self, P): return self.D.encode(P).hex()
     def desc(self, P): return "e" + self.enc(P)
+
+    def special_points(self):
+        if getattr(self, "_sp", None) is None:
+            B = self.base
+            out = [self.neutral, B, self.neg(B), self.dbl(B)]
+            # group elements whose (e,u) representative has e = 0 or small u, found by decoding small u values
+            for u in range(1, 40):
+                for uu in (u, self.p - u):
+                    P = self.D.decode(uu.to_bytes(32, "little"))
+                    if P is not None and len(out) < 24:
+                        out.append(P)
+                        out.append(self.mul(pow(2, -1, self.n), P))
+                        out.append(self.mul(pow(4, -1, self.n), P))
+            self._sp = out
+        return self._sp
 
     def mods(self, P, rng):
         m = ""
